@@ -89,7 +89,14 @@ def compile_all(jobs, nworkers=None, hashseed="0", timeout=300, extra_env=None):
                     if not queue:
                         return
                     job = queue.pop()
-                r = w.compile(job, timeout)
+                if job.get("fresh"):       # this job gets a process of its own (nothing was compiled in it before)
+                    w2 = Worker(hashseed, extra_env)
+                    try:
+                        r = w2.compile(job, timeout)
+                    finally:
+                        w2.close()
+                else:
+                    r = w.compile(job, timeout)
                 with lock:
                     results[job["id"]] = r
                 if r.get("dead"):
